@@ -72,6 +72,33 @@ def weight_classes(rng, n):
         yield 'thirds', [rng.choice([1, 2, 3]) for _ in range(n)]
 
 
+def knife_edge_world(rng, e, k_sign, k_rest):
+    """64-bit-scale weights with 3*signed - 2*total == e exactly (e small, any sign): -> (weights, signer indices)"""
+    while True:
+        S = rng.getrandbits(62) | (1 << 61)
+        if (3 * S - e) % 2 == 0:
+            break
+    T = (3 * S - e) // 2
+    rest = T - S
+
+    def split(x, k):
+        parts = []
+        for i in range(k - 1):
+            p = rng.randrange(1, max(2, x // (k - i)))
+            parts.append(p)
+            x -= p
+        parts.append(x)
+        return parts
+    ws, wr = split(S, k_sign), split(rest, k_rest)
+    assert sum(ws) == S and sum(ws) + sum(wr) == T and 3 * S - 2 * T == e and all(w > 0 for w in ws + wr)
+    weights = ws + wr
+    idx = list(range(len(weights)))
+    rng.shuffle(idx)
+    shuffled = [weights[i] for i in idx]
+    signers = [j for j, i in enumerate(idx) if i < k_sign]
+    return shuffled, signers
+
+
 def subsets_near_threshold(rng, world):
     """signer index lists: at, just below and just above 2/3 of the weight, plus all / none / one"""
     n = len(world.pubs)
@@ -131,8 +158,11 @@ def run(R):
                     return {'node_id_short': node_id(world.pubs[i]).hex(), 'signature': world.keys[i].sign(m).signature}
 
                 def judge(op, sigs):
-                    want, reason = r7(world, sigs, root, fileh)
-                    st, e = mon.call(check_block_signatures, list(nodes), [dict(s) for s in sigs], blk)
+                    return judge_for(op, sigs, blk)
+
+                def judge_for(op, sigs, the_blk):
+                    want, reason = r7(world, sigs, the_blk.root_hash, the_blk.file_hash)
+                    st, e = mon.call(check_block_signatures, list(nodes), [dict(s) for s in sigs], the_blk)
                     got = 'accept' if st == 'ok' else 'reject'
                     W = {'n': n, 'weights': [str(w) for w in weights[:20]], 'weight_class': wname, 'operator': op, 'reason': reason,
                          'signers': [next((i for i, p in enumerate(world.pubs) if node_id(p).hex() == s['node_id_short']), -1) for s in sigs][:40],
@@ -166,6 +196,15 @@ def run(R):
                         judge('dup-xn:' + sname, honest * n)
                     if sname == 'one-less':
                         judge('dup-pushes-over:' + sname, honest + [honest[j]] * 3)
+                    # --- the same validator listed twice, its id written in another hex case
+                    up = dict(honest[j], node_id_short=honest[j]['node_id_short'].upper())
+                    judge('dup-other-hex-case:' + sname, honest + [up])
+                    if sname == 'one-less':
+                        judge('dup-other-hex-case-pushes-over:' + sname, honest + [dict(h, node_id_short=h['node_id_short'].upper()) for h in honest])
+                    # --- genuine signatures of this block, first checked (accepted or not), then presented for another block
+                    other_blk = BlockIdExt(-1, -(1 << 63), blk.seqno, rng.randbytes(32), rng.randbytes(32))
+                    mon.call(check_block_signatures, list(nodes), [dict(x) for x in honest], blk)
+                    judge_for('replayed-for-other-block:' + sname, honest, other_blk)
                     # --- invalid entries at different positions
                     fk = SigningKey(rng.randbytes(32))
                     foreign = {'node_id_short': node_id(bytes(fk.verify_key)).hex(), 'signature': fk.sign(msg).signature}
@@ -199,6 +238,33 @@ def run(R):
                         judge(f'{bname}-added-{pos}:' + sname, [bad] + honest if pos == 'first' else honest + [bad])
                 R.cover('set_sizes', n)
                 R.cover('weight_classes', wname)
+    # ---- 64-bit weights whose signed share misses / passes two thirds by a handful of units (exact integer arithmetic decides)
+    from nacl.signing import SigningKey as _SK
+    for e in ([-97, -33, -32, -11, -2, -1, 0, 1, 2, 11, 33] if quick else list(range(-40, 41)) + [-97, -1000, 97, 1000]):
+        for rep in range(1 if quick else 3):
+            st, res = mon.call(knife_edge_world, rng, e, rng.randint(1, 4), rng.randint(1, 4))
+            if st == 'exc':
+                continue
+            weights, signers = res
+            world = World(rng, len(weights), weights)
+            nodes = world.nodes(rng)
+            root, fileh = rng.randbytes(32), rng.randbytes(32)
+            blk = BlockIdExt(-1, -(1 << 63), rng.getrandbits(31), root, fileh)
+            msg = MAGIC + root + fileh
+            sigs = [{'node_id_short': node_id(world.pubs[i]).hex(), 'signature': world.keys[i].sign(msg).signature} for i in signers]
+            want, reason = r7(world, sigs, root, fileh)
+            st, err = mon.call(check_block_signatures, list(nodes), sigs, blk)
+            got = 'accept' if st == 'ok' else 'reject'
+            R.counters['oracle_evaluations'] += 1
+            R.count('knife_edge_cases')
+            R.count('verdict_' + want)
+            R.cover('knife_edge_margins', e)
+            if got != want:
+                R.violation(f'{"accepted" if got == "accept" else "rejected"}-{reason}-64bit-margin', f'64-bit weights, 3*signed - 2*total = {e}: {got} but must {want}',
+                            {'n': len(weights), 'weights': [str(w) for w in weights], 'signers': signers, 'margin': e, 'operator': 'knife-edge',
+                             'seeds': [bytes(k).hex() for k in world.keys], 'root': root, 'file': fileh, 'reason': reason, 'weight_class': 'knife-edge'})
+            R.case(mon.fp('knife', e, tuple(weights), tuple(signers)))
+    R.floor('knife_edge_cases', 10)
     R.floor('verdict_accept', 40)
     R.floor('verdict_reject', 300)
     R.floor('reasons', 6, 'set')
